@@ -65,50 +65,65 @@ PROBE_SPOOF = {
 }
 
 
+# third manifestation: the native token is named like a voucher path of the very end it is SENT over ("transfer/channel-1/uatomc"
+# on B, channel-1 = B's end of BC).  C answers with an error acknowledgement (it tries to unescrow "uatomc"), and B's refund
+# re-parses the packet, takes the token for a voucher it had burnt and MINTS ibc/HASH to the sender: the escrowed natives stay
+# locked, the tracker is not decremented, an unrecorded voucher denomination appears.
+PROBE_REFUND = {
+    "id": "probe-refund-of-voucher-named-native", "kind": "case", "uniq": False, "kf": KF_CLASS, "bases": {"$B1": "transfer/channel-1/uatomc"},
+    "acts": [
+        {"a": "Fund", "c": "B", "acct": "u1", "base": "$B1", "amt": 3, "valid": True},
+        {"a": "Transfer", "c": "B", "e": "BC.B", "proto": "v1", "sender": "u1", "signer": "u1", "receiver": "u2",
+         "denom": {"tr": [], "base": "$B1"}, "amt": 2, "to": "t", "slash": True},
+        {"a": "Recv", "c": "C", "e": "BC.B", "seq": 1, "rl": "rly"},
+        {"a": "Ack", "c": "B", "e": "BC.B", "seq": 1, "rl": "rly"},
+    ],
+}
+
+
 def sizes(tier):
     if tier == "quick":
         return dict(walks=16, depth=46, shards=12, max_hops=3,
                     table=dict(MaxLen=4, BaseMaxLen=3, FullLen=2, Stride=7, BatchSize=8, Route2Every=4), variants=2)
-    return dict(walks=240, depth=70, shards=16, max_hops=4,
-                table=dict(MaxLen=5, BaseMaxLen=4, FullLen=3, Stride=4, BatchSize=10, Route2Every=3), variants=3)
+    return dict(walks=160, depth=64, shards=16, max_hops=4,
+                table=dict(MaxLen=5, BaseMaxLen=4, FullLen=3, Stride=6, BatchSize=10, Route2Every=3), variants=3)
 
 
-def mc_constants(tier):
+def mc_configs(tier):
+    """name -> (constants, witnesses that must be seen).  Measured (4 workers, heavily loaded machine):
+    quick/small 2 321 distinct states (25 s); thorough/deep 69 265 (5.5 min), thorough/env 27 780 (2.7 min)."""
+    base = dict(SENDERS={"u1", "u2"}, RCVS={"u2", "blk"}, AMTS={1, 2}, PROTOS={"v1", "alias"}, TOS={"t", "h"}, MaxHops=2,
+                MaxPk=2, MaxEp=0, PCHAINS=set(), SLASH=set(), NAT_A={"x"}, NAT_B=set(), NAT_C=set(), FUND=2)
+    w_small = ["send-v1", "send-alias", "send-return", "recv-mint", "recv-mint-2hops", "recv-release-native", "recv-error-ack",
+               "ack-success", "refund-errack-escrow", "refund-errack-mint", "refund-timeout-escrow", "refund-timeout-mint",
+               "timeout-height", "round-trip-complete"]
     if tier == "quick":
-        return dict(SENDERS={"u1", "u2"}, RCVS={"u2", "blk"}, AMTS={1, 2}, PROTOS={"v1", "alias"}, TOS={"t", "h"}, MaxHops=2,
-                    MaxPk=2, MaxEp=0, PCHAINS=set(), SLASH=set(), NAT_A={"x"}, NAT_B=set(), NAT_C=set(), FUND=2)
-    return dict(SENDERS={"u1", "u2"}, RCVS={"u2", "blk"}, AMTS={1, 2}, PROTOS={"v1", "alias"}, TOS={"t", "h"}, MaxHops=3,
-                MaxPk=3, MaxEp=1, PCHAINS={"B"}, SLASH=set(), NAT_A={"x"}, NAT_B=set(), NAT_C=set(), FUND=2)
-
-
-MC_WITNESS = {
-    "quick": ["send-v1", "send-alias", "send-return", "recv-mint", "recv-mint-2hops", "recv-release-native", "recv-error-ack",
-              "ack-success", "refund-errack-escrow", "refund-errack-mint", "refund-timeout-escrow", "refund-timeout-mint",
-              "timeout-height", "round-trip-complete"],
-    "thorough": ["send-v1", "send-alias", "send-return", "recv-mint", "recv-mint-2hops", "recv-mint-3hops", "recv-release-native",
-                 "recv-release-voucher", "recv-error-ack", "ack-success", "refund-errack-escrow", "refund-errack-mint",
-                 "refund-timeout-escrow", "refund-timeout-mint", "timeout-height", "round-trip-complete", "tick", "params"],
-}
-
-
-def tla_set(v):
-    return v
+        return {"small": (base, w_small)}
+    deep = dict(base, MaxHops=3, MaxPk=3)
+    env = dict(base, MaxEp=1, PCHAINS={"B"})
+    return {"deep": (deep, w_small + ["recv-mint-3hops", "recv-release-voucher"]),
+            "env": (env, w_small + ["tick", "params"])}
 
 
 def run_mc(tier, result, errors):
     try:
         d = vk.scratch_spec(SPEC_DIR)
-        cfg = os.path.join(d, "MC_ICS20.cfg")
-        consts = mc_constants(tier)
-        vk.write_cfg(cfg, "Spec", consts, invariants=["Inv"], view="View")
-        r = vk.tlc_mc(d, "MC_ICS20", cfg, workers=4, timeout=600 if tier == "quick" else 3000)
-        seen = set(re.findall(r'<<"WITNESS", "([A-Za-z0-9-]+)">>', r["out"]))
-        missing = [w for w in MC_WITNESS[tier] if w not in seen]
-        if missing:
-            raise vk.Infra("vacuous model check (ICS20): never witnessed %s" % missing)
-        result["mc"] = {"ICS20": {"distinct": r["distinct"], "generated": r["generated"], "depth": r["depth"],
-                                  "witnessed": sorted(seen),
-                                  "constants": {k: (sorted(v) if isinstance(v, set) else v) for k, v in consts.items()}}}
+        out = {}
+
+        def one(item):
+            name, (consts, witnesses) = item
+            cfg = os.path.join(d, "MC_ICS20_%s.cfg" % name)
+            vk.write_cfg(cfg, "Spec", consts, invariants=["Inv"], view="View")
+            r = vk.tlc_mc(d, "MC_ICS20", cfg, workers=4 if tier == "quick" else 3, timeout=900 if tier == "quick" else 5400)
+            seen = set(re.findall(r'<<"WITNESS", "([A-Za-z0-9-]+)">>', r["out"]))
+            missing = [w for w in witnesses if w not in seen]
+            if missing:
+                raise vk.Infra("vacuous model check (ICS20/%s): never witnessed %s" % (name, missing))
+            return name, {"distinct": r["distinct"], "generated": r["generated"], "depth": r["depth"], "witnessed": sorted(seen),
+                          "constants": {k: (sorted(v) if isinstance(v, set) else v) for k, v in consts.items()}}
+        for name, r in vk.pmap(one, list(mc_configs(tier).items()), 2):
+            out[name] = r
+        result["mc"] = out
         shutil.rmtree(d, ignore_errors=True)
     except Exception as e:  # noqa
         errors.append(e)
@@ -356,7 +371,7 @@ def run_family(tier, seed, binary=None):
         raise errors[0]
     walks = gen["walks"]
     batches, tabledir, counts = gen["cases"]
-    scheds = walks + batches + [PROBE, PROBE_SPOOF]
+    scheds = walks + batches + [PROBE, PROBE_SPOOF, PROBE_REFUND]
     vk.log("generated %d walks, %d case batches (%s) in %.1fs" % (len(walks), len(batches), counts, time.time() - t0))
     tfiles = drive(binary, scheds, workdir, "main", sz["shards"], seed)
     table = drive_table(binary, tabledir, workdir, "main", seed, sz["variants"])
@@ -458,6 +473,9 @@ def match_known(fail, schedule, known):
     return None
 
 
+_REFUND_TEXT = ("native token of B named 'transfer/channel-1/uatomc' (a voucher path of the end it is sent over): %s at step %d; "
+                "after C's error acknowledgement the refund on B mints ibc/HASH instead of releasing the escrowed tokens "
+                "(keeper/relay.go refundPacketTokens HasPrefix branch on the re-parsed packet denomination)")
 PROBE_TEXT = {
     "C33": (PROBE["id"], "native base denomination 'lp/pooltoken-1/share' (hop-shaped segment pair): %s at step %d of the probe A->B->A; "
             "the returned voucher is not released from escrow (types/denom.go ExtractDenomFromPath re-splits the base, "
@@ -465,6 +483,9 @@ PROBE_TEXT = {
     "C30": (PROBE_SPOOF["id"], "native token of A named 'transfer/channel-0/uatomb' (a voucher path of the channel it is sent over): %s at step %d; "
             "B releases real uatomb from its escrow for it, leaving A's vouchers of uatomb unbacked "
             "(types/denom.go ExtractDenomFromPath + keeper/relay.go OnRecvPacket HasPrefix branch)"),
+    "C31": (PROBE_REFUND["id"], _REFUND_TEXT),
+    "C32": (PROBE_REFUND["id"], _REFUND_TEXT),
+    "C34": (PROBE_REFUND["id"], _REFUND_TEXT),
 }
 
 
